@@ -137,3 +137,89 @@ func (s *Store) Symbols(ts ...*Term) []*Term {
 	}
 	return out
 }
+
+// ReplaceAtoms substitutes Boolean subterms that are known to be true/false.
+func (s *Store) ReplaceAtoms(t *Term, known map[int64]bool) *Term {
+	if len(known) == 0 {
+		return t
+	}
+	memo := map[int64]*Term{}
+	var rec func(*Term) *Term
+	rec = func(x *Term) *Term {
+		if r, ok := memo[x.ID]; ok {
+			return r
+		}
+		var r *Term
+		if v, ok := known[x.ID]; ok && x.Sort == Bool {
+			r = s.BoolC(v)
+		} else if len(x.Args) == 0 {
+			r = x
+		} else {
+			args := make([]*Term, len(x.Args))
+			ch := false
+			for i, a := range x.Args {
+				args[i] = rec(a)
+				if args[i] != a {
+					ch = true
+				}
+			}
+			if ch {
+				r = s.Rebuild(x, args)
+			} else {
+				r = x
+			}
+		}
+		memo[x.ID] = r
+		return r
+	}
+	return rec(t)
+}
+
+// Units collects top-level literals of a conjunction of assertions.
+func (s *Store) Units(ts []*Term, known map[int64]bool) {
+	var rec func(t *Term, pos bool)
+	rec = func(t *Term, pos bool) {
+		switch {
+		case t.Op == ONot:
+			rec(t.Args[0], !pos)
+		case t.Op == OAnd && pos:
+			for _, a := range t.Args {
+				rec(a, true)
+			}
+		case t.Op == OOr && !pos:
+			for _, a := range t.Args {
+				rec(a, false)
+			}
+		case t.Op == OConst:
+		default:
+			known[t.ID] = pos
+		}
+	}
+	for _, t := range ts {
+		rec(t, true)
+	}
+}
+
+// HasOp reports whether any subterm uses one of the operators.
+func (s *Store) HasOp(t *Term, ops ...Op) bool {
+	seen := map[int64]bool{}
+	var rec func(*Term) bool
+	rec = func(x *Term) bool {
+		if seen[x.ID] {
+			return false
+		}
+		seen[x.ID] = true
+		for _, o := range ops {
+			if x.Op == o {
+				return true
+			}
+		}
+		for _, a := range x.Args {
+			if rec(a) {
+				return true
+			}
+		}
+		return false
+	}
+	return rec(t)
+}
